@@ -17,3 +17,8 @@ for id in $ids; do
   [ "$races" != "0" ] && grep -h -A14 "DATA RACE" $out/replay/$id-*.json | head -40
   rm -f $out/$pkg.race
 done
+# C12: the property's own "concurrent goroutines under the race detector" clause (auxiliary; see checks/c12/race_test.go)
+if [ $# -eq 0 ] || echo "$@" | grep -q C12; then
+  r=$(VERIF_RACE_AUX=1 go1.26.8 test -race -tags verif -vet=off -count=1 -run '^TestRaceAux$' ./checks/c12 2>&1 | tail -3 | tr '\n' ' ')
+  echo "C12 race-aux: $r"
+fi
